@@ -510,6 +510,94 @@ func genIDs(r *vh.Rng) []Case {
 	return out
 }
 
+// id tables for the round-trip streams: closed under the coercion encoding/json applies (every id comes with
+// the id it is rewritten to), so the restored allocator's answers name holders of the table
+var rtIDFamilies = [][]string{
+	{"\xff", "\xfe", "\xef\xbf\xbd", "ok", "a\xc3", "a\xef\xbf\xbd"},
+	{"\xed\xa0\x80", "\xef\xbf\xbd\xef\xbf\xbd\xef\xbf\xbd", "\xc0\xaf", "\xef\xbf\xbd\xef\xbf\xbd", "é", "\x00"},
+	{"é", "e\u0301", "日本/語", "<a&b>", "q\"uote\\", "l\u2028s"}, // all valid: inside the guard ids_valid
+}
+
+// the round-trip generators again, with hostile ids (store: one pool per holder class so that no two records of one
+// pool collide after the coercion - the survivor would depend on Go's map iteration order)
+func genRTIDs(r *vh.Rng, n, maxOps int) (bm, ep, st []Case) {
+	for i := 0; i < n; i++ {
+		fam := rtIDFamilies[i%len(rtIDFamilies)]
+		for _, c := range genBitmapRT(r.Fork(), 1, maxOps) {
+			c.Univ, c.Origin = len(fam), "ids"
+			for k := range c.Ops {
+				c.Ops[k].H = (c.Ops[k].H*5 + k) % len(fam)
+			}
+			setNames(&c, fam)
+			bm = append(bm, c)
+		}
+		for _, c := range genEpochRT(r.Fork(), 1, maxOps) {
+			c.Univ, c.Origin = len(fam), "ids"
+			for k := range c.Ops {
+				c.Ops[k].H = (c.Ops[k].H*5 + k) % len(fam)
+			}
+			setNames(&c, fam)
+			ep = append(ep, c)
+		}
+		for _, c := range genStoreRT(r.Fork(), 1, maxOps, true) {
+			c.Univ, c.Origin = len(fam), "ids"
+			var ops []Op // one round trip, at the end: a second one could meet two records of one pool whose ids collide
+			for k, o := range c.Ops {
+				if o.K == "q" || o.K == "rt" {
+					continue
+				}
+				o.H = (o.H*5 + k) % len(fam)
+				o.Pool = o.H % 3
+				ops = append(ops, o)
+			}
+			c.Ops = append(ops, Op{K: "q"}, Op{K: "rt"}, Op{K: "q"})
+			setNames(&c, fam)
+			st = append(st, c)
+		}
+	}
+	return
+}
+
+// byte strings for the json_coerce sweep: every string of length <= 2 over the boundary bytes of the UTF-8 table,
+// random longer ones over the same alphabet, and valid sequences with one byte damaged
+func genJSONCoerce(r *vh.Rng, nrand int) []Case {
+	alpha := []byte{0x00, 0x22, 0x41, 0x5c, 0x7f, 0x80, 0x8f, 0x90, 0x9f, 0xa0, 0xbf, 0xc0, 0xc1, 0xc2, 0xdf, 0xe0, 0xe1, 0xec, 0xed, 0xee, 0xef, 0xf0, 0xf1, 0xf3, 0xf4, 0xf5, 0xff}
+	var all [][]byte
+	all = append(all, []byte{})
+	for _, a := range alpha {
+		all = append(all, []byte{a})
+		for _, b := range alpha {
+			all = append(all, []byte{a, b})
+		}
+	}
+	valid := []string{"é", "\u0800", "\ud7ff", "\ue000", "\ufffd", "\U00010000", "\U0010ffff", "日本語", "a\u2028b", "<&>"}
+	for i := 0; i < nrand; i++ {
+		n := 3 + r.Intn(5)
+		b := make([]byte, n)
+		for k := range b {
+			b[k] = alpha[r.Intn(len(alpha))]
+		}
+		all = append(all, b)
+		v := []byte(valid[r.Intn(len(valid))] + valid[r.Intn(len(valid))])
+		switch r.Intn(3) {
+		case 0:
+			v[r.Intn(len(v))] = alpha[r.Intn(len(alpha))]
+		case 1:
+			v = v[:r.Intn(len(v)+1)]
+		}
+		all = append(all, v)
+	}
+	var out []Case
+	for i := 0; i < len(all); i += 100 {
+		c := Case{Kind: "jsoncoerce", Origin: "sweep"}
+		for _, b := range all[i:min(i+100, len(all))] {
+			c.NamesX = append(c.NamesX, hex.EncodeToString(b))
+		}
+		out = append(out, c)
+	}
+	return out
+}
+
 func generate(r *vh.Rng, thorough bool) []stream {
 	exDepth, nr, maxOps := 3, 90, 14
 	if thorough {
@@ -535,5 +623,10 @@ func generate(r *vh.Rng, thorough bool) []stream {
 	out = append(out, stream{"bitmap", "bitmap", append(genBitmapExh(bex), genBitmapRT(r.Fork(), nr, maxOps)...), map[string]interface{}{"exhaustive_part": fmt.Sprintf("all sequences of length %d over 9 mutating ops on a 4-unit pool, each followed by query battery + round trip", bex)}})
 	out = append(out, stream{"epoch", "epoch", genEpochRT(r.Fork(), nr, maxOps), nil})
 	out = append(out, stream{"store", "store", append(genStoreRT(r.Fork(), nr/3, maxOps*2/3, true), genStoreRT(r.Fork(), nr/3, maxOps*2/3, false)...), nil})
+	bmI, epI, stI := genRTIDs(r.Fork(), nr/3, maxOps)
+	out = append(out, stream{"bitmap_ids", "bitmap", bmI, nil})
+	out = append(out, stream{"epoch_ids", "epoch", epI, nil})
+	out = append(out, stream{"store_ids", "store", stI, nil})
+	out = append(out, stream{"jsoncoerce", "jsoncoerce", genJSONCoerce(r.Fork(), nr*4), map[string]interface{}{"exhaustive_part": "every byte string of length <= 2 over 27 boundary bytes of the UTF-8 table"}})
 	return out
 }
